@@ -531,7 +531,10 @@ def _get_cummat(trajs, lagtime):
         cummat_perm[idx] = np.cumsum(row[idx_sort])
         state_perm[idx] = idx_sort
 
-    cummat_perm[:, -1] = 1  # enforce that probability sums up to 1
+        # enforce that probability sums up to 1, the rounding error is added
+        # to the last state with T_ij>0 and never to a state with T_ij=0
+        idx_last = max(np.count_nonzero(row), 1) - 1
+        cummat_perm[idx, idx_last:] = 1
     return cummat_perm, state_perm
 
 
